@@ -45,7 +45,11 @@ def gen_cases(ctx):
             order.append(rng.choice(order))
         cases.append({"enz": enz["name"], "q": q, "elements": ch["elements"], "order": order,
                       "calls": rng.choice([1, 2, 3]),
-                      "fail_first": rng.choice([None, None, "missing" if q > 1 else "bad-citation", "bad-citation"])})
+                      "fail_first": rng.choice([None, None, "missing" if q > 1 else "bad-citation", "bad-citation"]),
+                      # what the extra citation of a bad-citation history reads: out of range, Python's negative
+                      # index, not of the bracketed form, a prefix match, leading zeros, not a string at all
+                      "bad_cit": rng.choice(["[99]", "[99]", "[0]", "[]", "[1", "x", "", "[a]", "[1]x", "[01]", "<ref>",
+                                             "[ 1]", "[1 ]", "[-1]", "1]", "[1][2]"])})
     return cases
 
 
@@ -68,13 +72,18 @@ def run_product(case):
         cited = [f for e in ents for f in e.record.features if f.qualifiers.get("citation")]
         if cited:
             f = cited[len(cited) // 2]
-            f.qualifiers["citation"].append("[99]")
+            badc = case.get("bad_cit", "[99]")
+            if badc == "<ref>":
+                from harness import recutil
+                badc = recutil.mk_reference(7)
+            f.qualifiers["citation"].append(badc)
             before = annot.cit_snapshot(ents)
             out["src_failed_inputs"] = [srcrun.dump_input(e) for e in ents]
-            fobs, _ = implutil.observe_assembly(ents[q], [ents[i] for i in case["order"]], id="prod", name="prod")
+            fobs, fprod = implutil.observe_assembly(ents[q], [ents[i] for i in case["order"]], id="prod", name="prod")
             out["src_failed_obs"] = fobs
+            out["src_failed_product"] = srcrun.dump_product(fprod) if fprod is not None else None
             out["failed_call"] = {"out": fobs.get("out") + ":" + str(fobs.get("exc")), "inputs_same": annot.cit_snapshot(ents) == before}
-            if f.qualifiers["citation"][-1] == "[99]":
+            if f.qualifiers["citation"][-1] is badc or f.qualifiers["citation"][-1] == badc:
                 f.qualifiers["citation"].pop()
             else:
                 out["failed_call"]["inputs_same"] = False
@@ -262,7 +271,7 @@ def src_terms(ctx, c, r):
     """the calls of the case as run through vector.assemble regenerated from the source"""
     q = c["q"]
     out = []
-    for inputs, obs, prod in ((r.get("src_failed_inputs"), r.get("src_failed_obs"), None),
+    for inputs, obs, prod in ((r.get("src_failed_inputs"), r.get("src_failed_obs"), r.get("src_failed_product")),
                               (r.get("src_inputs"), r.get("src_obs"), r.get("src_product"))):
         if inputs is None or obs is None:
             continue
